@@ -687,12 +687,25 @@ def c_MatrixExp3(case, ctx):
     differential("MatrixExp3", (carr(O.hat3(w)),), ctx, straddle=whole_straddle(3, th))
 
 
+def _log_branch_label(ctx, R):
+    """Which branch of the library's logarithm the input selects (measured from the input, MR's own tests)."""
+    ac = (R[0, 0] + R[1, 1] + R[2, 2] - 1) / 2.0
+    if ac >= 1:
+        ctx.label("log branch: identity")
+    elif ac <= -1:
+        ctx.label("log branch: half turn via " + ("R22" if abs(1 + R[2, 2]) >= 1e-6 else
+                                                  "R11" if abs(1 + R[1, 1]) >= 1e-6 else "R00"))
+    else:
+        ctx.label("log branch: generic")
+
+
 def c_MatrixLog3(case, ctx):
     R = carr(case["T"][:3, :3])
     th = O.angle(R)
     _ang_label(ctx, th)
+    _log_branch_label(ctx, R)
     ctx.nontrivial(th >= 1e-6)
-    differential("MatrixLog3", (R,), ctx, cond_idx=(0,))
+    differential("MatrixLog3", (R,), ctx)
 
 
 def c_RpToTrans(case, ctx):
@@ -757,8 +770,9 @@ def c_MatrixLog6(case, ctx):
     T = case["T"]
     th = O.angle(T[:3, :3])
     _ang_label(ctx, th)
+    _log_branch_label(ctx, T[:3, :3])
     ctx.nontrivial(th >= 1e-6)
-    differential("MatrixLog6", (T,), ctx, cond_idx=(0,))
+    differential("MatrixLog6", (T,), ctx)
 
 
 def _mat_case(name):
@@ -1062,8 +1076,7 @@ def c_ScrewTrajectory(case, ctx):
     X = case["X"]
     ctx.label("rel " + X["rel"])
     ctx.nontrivial(nt and X["relang"] >= 1e-6)
-    differential("ScrewTrajectory", (X["Xstart"], X["Xend"], case["Tf"], case["N"], case["method"]), ctx,
-                 cond_idx=(0, 1))
+    differential("ScrewTrajectory", (X["Xstart"], X["Xend"], case["Tf"], case["N"], case["method"]), ctx)
 
 
 def c_CartesianTrajectory(case, ctx):
@@ -1071,8 +1084,7 @@ def c_CartesianTrajectory(case, ctx):
     X = case["X"]
     ctx.label("rel " + X["rel"])
     ctx.nontrivial(nt and X["relang"] >= 1e-6)
-    differential("CartesianTrajectory", (X["Xstart"], X["Xend"], case["Tf"], case["N"], case["method"]), ctx,
-                 cond_idx=(0, 1))
+    differential("CartesianTrajectory", (X["Xstart"], X["Xend"], case["Tf"], case["N"], case["method"]), ctx)
 
 
 # ----------------------------------------------------------------------------------------------
@@ -1205,7 +1217,21 @@ def s_eulerstep():
         "dt": st.one_of(G.log_uniform(1e-4, 1.0), st.sampled_from([0.1, 0.01, 0.0]))}))
 
 
+def _halfturn_from(t):
+    """Exact-as-possible half turns 2nn^T - I whose axis selects each sub-branch of the logarithm: axis in the
+    xy-plane (R22 = -1: second/third sub-branch), in the xz- or yz-plane, along a coordinate axis, generic."""
+    kind, a, u, p = t
+    c, sn = math.cos(a), math.sin(a)
+    n = {"xy": np.array([c, sn, 0.0]), "xz": np.array([c, 0.0, sn]), "yz": np.array([0.0, c, sn]),
+         "generic": u}[kind]
+    return carr(O.rp(2 * np.outer(n, n) - np.eye(3), p))
+
+
+HALFTURN_T = st.tuples(st.sampled_from(["xy", "xz", "yz", "generic"]), _FPI, UNIT, pos_strategy(10.0)).map(
+    _halfturn_from)
 _T = st.fixed_dictionaries({"T": G.se3s()})
+# logarithms: the C01 pose generator (every angle, pi-10^-k, quaternions, half turns) plus extra half turns
+_TLOG = st.fixed_dictionaries({"T": st.one_of(G.se3s(), G.se3s(), G.se3s(), HALFTURN_T)})
 _V = st.fixed_dictionaries({"V": G.twists()})
 _W = st.fixed_dictionaries({"w": G.rotvecs()})
 _OMG = st.fixed_dictionaries({"omg": NONZERO_VEC3})
@@ -1239,7 +1265,7 @@ _EQ = [
     ("so3ToVec", c_so3ToVec, _OMG),
     ("AxisAng3", c_AxisAng3, _W),
     ("MatrixExp3", c_MatrixExp3, _W),
-    ("MatrixLog3", c_MatrixLog3, _T),
+    ("MatrixLog3", c_MatrixLog3, _TLOG),
     ("RpToTrans", c_RpToTrans, _T),
     ("TransToRp", c_TransToRp, _T),
     ("TransInv", c_TransInv, _T),
@@ -1251,7 +1277,7 @@ _EQ = [
                             "h": st.one_of(G.floats(-2, 2), st.sampled_from([0.0, 0.0, 2.0]))})),
     ("AxisAng6", c_AxisAng6, _V),
     ("MatrixExp6", c_MatrixExp6, _V),
-    ("MatrixLog6", c_MatrixLog6, _T),
+    ("MatrixLog6", c_MatrixLog6, _TLOG),
     ("ProjectToSO3", _mat_case("ProjectToSO3"), NEAR_SO3),
     ("ProjectToSE3", _mat_case("ProjectToSE3"), NEAR_SE3),
     ("DistanceToSO3", _mat_case("DistanceToSO3"), NEAR_SO3),
